@@ -11,7 +11,7 @@
    Integers: the string -> int path goes through float64 (ParseFloat then int(f)).
    The model parses the decimal integer syntax exactly (a value in Z), rounds it to
    the nearest binary64 with ties to even (round53: executable over Z, no reals), and
-   truncates.  Other float syntax (fractions, exponents, hex, inf, nan, underscores) is
+   truncates (int(f), with amd64's result outside int64).  Other float syntax (fractions, exponents, hex, inf, nan, underscores) is
    outside the integer model: Err 2.
 
    Floats: a float64 is its 64 bits (N).  strconv.FormatFloat / ParseFloat are not
@@ -83,15 +83,38 @@ Definition round53 (z : Z) : Z :=
             else if Z.even q then q else (q + 1)%Z in
   (Z.sgn z * (q' * p))%Z.
 
-(* Go's int is 64 bits; int(f) for |f| >= 2^63 is implementation specific: not modelled *)
-Definition in_int64 (z : Z) : bool := (Z.ltb (- 2 ^ 63) z && Z.ltb z (2 ^ 63))%Z.
+(* Go's int is 64 bits.  int(f) for a float outside the int64 range is implementation
+   specific; on amd64 (CVTTSD2SQ) it is the "integer indefinite" value -2^63, also for NaN/Inf *)
+Definition in_int64 (z : Z) : bool := (Z.leb (- 2 ^ 63) z && Z.ltb z (2 ^ 63))%Z.
+Definition go_int_of_float (f : Z) : Z := if in_int64 f then f else (- 2 ^ 63)%Z.
+
+(* ParseFloat returns +-Inf and ErrRange when the correctly rounded value does not fit binary64 *)
+Definition float_overflow (f : Z) : bool := (Z.leb (2 ^ 1024) (Z.abs f))%Z.
 
 (* goStringRecast(v, Integer).  Err 2: not decimal integer syntax (outside the model, or a
-   ParseFloat syntax error); Err 3: beyond int64 *)
+   ParseFloat syntax error); Err 1: ParseFloat range error *)
 Definition int_of_string (s : bytes) : Outcome Z :=
   match parse_dec_int (default_zero (trim_space s)) with
-  | Some z => let f := round53 z in if in_int64 f then Ok f else Err 3
+  | Some z => let f := round53 z in if float_overflow f then Err 1 else Ok (go_int_of_float f)
   | None => Err 2
+  end.
+
+(* goFloatRecast(v, Integer) = int(v): truncation toward zero of the float with bits f *)
+Definition trunc_of_bits (f : N) : option Z :=
+  let e := Z.of_N ((f / 2 ^ 52) mod 2 ^ 11) in
+  let m := Z.of_N (f mod 2 ^ 52) in
+  let neg := N.eqb ((f / 2 ^ 63) mod 2) 1 in
+  if Z.eqb e 2047 then None
+  else
+    let mant := if Z.eqb e 0 then m else (m + 2 ^ 52)%Z in
+    let ex := ((if Z.eqb e 0 then 1 else e) - 1075)%Z in
+    let mag := if Z.leb 0 ex then (mant * 2 ^ ex)%Z else (mant / 2 ^ (- ex))%Z in
+    Some (if neg then (- mag)%Z else mag).
+
+Definition int_of_float_bits (f : N) : Z :=
+  match trunc_of_bits f with
+  | Some z => go_int_of_float z
+  | None => (- 2 ^ 63)%Z
   end.
 
 (* goIntegerRecast(v, String) *)
